@@ -223,6 +223,30 @@ def grammar(seed):
     return render(build(seed, odd_names=True, rich=(seed % 2 == 0)))
 
 
+def edited_grammar(seed, edit_seed):
+    """Grammar `seed` after a user's edit: the rule table (names, kinds, order, WHITESPACE/COMMENT) stays what it was, one to
+    three rule bodies are rewritten so that the reference structure changes - a backward reference behind a literal closes a
+    cycle, a by-value forward reference lengthens one, a plain atom removes the rule's edges. This is what a long-lived
+    proc-macro server (an editor session) is handed again and again; its own PRNG stream, so grammar `seed` itself is untouched."""
+    g = build(seed, odd_names=True, rich=(seed % 2 == 0))
+    er = SplitMix(edit_seed ^ 0xED17ED17)
+    n = len(g.rules)
+    for _ in range(1 + er.below(3)):
+        i = er.below(n)
+        idx, mod, doc, _body = g.rules[i]
+        k = er.below(4)
+        if k == 0:
+            body = ("seq", [("lit", er.pick(WORDS)), ("opt", ("ref", er.below(i + 1)))])
+        elif k == 1 and i + 1 < n:
+            body = ("seq", [("lit", er.pick(WORDS)), ("ref", i + 1 + er.below(n - i - 1))])
+        elif k == 2:
+            body = ("seq", [("lit", er.pick(WORDS)), ("alt", [("seq", [("lit", er.pick(WORDS)), ("ref", er.below(n))]), ("lit", er.pick(WORDS))])])
+        else:
+            body = ("lit", er.pick(WORDS))
+        g.rules[i] = (idx, mod, doc, body)
+    return render(g)
+
+
 def sample_expr(g, e, rng, depth, stack, sep):
     """A sentence the expression is likely (not certain) to match."""
     t = e[0]
